@@ -392,6 +392,97 @@ def crash_points(base, refbase, sizes, findings, samples):
                     findings.append({"prop": "C07", "sig": verdict[0], "count": 1, "wlen": size, "witness": {"dictionary_words": size, "kill_at": "%s #%d" % (name, nth), "server_died": died}, "detail": verdict[1]})
     return evaluations, points
 
+# ------------------------------------------------------------------------------------------------
+# dictionary files on disk, read by the command line tool
+
+CLI = os.path.join(os.path.dirname(client.LS), "harper-cli")
+CLI_SHAPES = ["lf", "crlf", "no-final-newline", "crlf+no-final-newline", "blank-lines", "crlf+blank-lines", "duplicates", "mixed-eol", "one-word", "one-word+crlf"]
+
+
+def cli_count(path, user_dict, file_dir, home):
+    env = dict(os.environ, HOME=home, XDG_CONFIG_HOME=os.path.join(home, "cfg"), XDG_DATA_HOME=os.path.join(home, "data"))
+    r = subprocess.run([CLI, "lint", path, "--count", "--only-lint-with", "SpellCheck", "--user-dict-path", user_dict, "--file-dict-path", file_dir],
+                       capture_output=True, text=True, timeout=120, env=env)
+    nums = [l.strip() for l in r.stdout.splitlines() if l.strip().isdigit()]
+    if r.returncode != 0 or not nums:
+        return None, (r.stdout + r.stderr)[-300:]
+    return int(nums[-1]), ""
+
+
+def cli_dictionaries(base, seed, n, findings, samples):
+    """`harper-cli lint --user-dict-path U --file-dict-path DIR`: word lists in the shapes they have in the wild (the ones
+    harper-ls writes, hand-edited ones, ones synced from another platform).  Every listed word must be accepted in the
+    file the dictionary is in force for; a word of another file's dictionary, and a word in no list, is still reported."""
+    if not os.path.exists(CLI):
+        return 0, set(), ["harper-cli not built at %s" % CLI]
+    rng = random.Random(seed * 104729 + 17)
+    evaluations = 0
+    seen = set()
+    inconclusive = []
+    root = os.path.join(base, "cli")
+    for i in range(n):
+        wd = os.path.join(root, "c%d" % i)
+        shutil.rmtree(wd, ignore_errors=True)
+        os.makedirs(os.path.join(wd, "fd"))
+        shape = CLI_SHAPES[i % len(CLI_SHAPES)]
+        pool = [w for w in WORDS if len(w) < 40]
+        rng.shuffle(pool)
+        k = 1 if shape.startswith("one-word") else rng.randint(2, 6)
+        user, filea, fileb, absent = pool[:k], pool[k:k + 2], pool[k + 2:k + 3], pool[k + 3:k + 5]
+
+        def body(words):
+            lines = list(words)
+            if "duplicates" in shape:
+                lines = lines + lines[:1]
+            if "blank-lines" in shape:
+                lines = [x for w in lines for x in (w, "")]
+            if shape == "mixed-eol":
+                return "".join(w + ("\r\n" if j % 2 == 0 else "\n") for j, w in enumerate(lines))
+            eol = "\r\n" if "crlf" in shape else "\n"
+            return eol.join(lines) + ("" if "no-final-newline" in shape else eol)
+
+        udict = os.path.join(wd, "user.txt")
+        with open(udict, "w", encoding="utf-8", newline="") as f:
+            f.write(body(user))
+        ext = rng.choice(["md", "rs", "py", "md"])
+        pa, pb = os.path.join(wd, "a." + ext), os.path.join(wd, "b." + ext)
+        for p, words in ((pa, filea), (pb, fileb)):
+            with open(os.path.join(wd, "fd", model.file_dict_name(p)), "w", encoding="utf-8", newline="") as f:
+                f.write(body(words))
+        lead = {"rs": "// ", "py": "# "}.get(ext, "")
+        def doc(words):
+            return "".join("%sWe saw the %s here today.\n%s\n" % (lead, w, "") for w in words)
+        # words that fold to the same key (Tset / TSET / tset) count once per occurrence in the text all the same
+        cases = [("listed", pa, user + filea, 0), ("other-file", pa, fileb, len(fileb)), ("absent", pa, absent, len(absent)), ("listed-b", pb, user + fileb, 0)]
+        for name, p, words, want in cases:
+            if name in ("other-file", "absent"):
+                # a word that differs from a listed one only in capitalisation or apostrophe style is accepted through that entry
+                inforce = {fold(x) for x in user + (filea if p == pa else fileb)}
+                words = [w for w in words if fold(w) not in inforce]
+                want = len(words)
+            with open(p, "w", encoding="utf-8") as f:
+                f.write(doc(words))
+            got, err = cli_count(p, udict, os.path.join(wd, "fd"), wd)
+            evaluations += 1
+            if want and got is not None:
+                # what the same text gets with no user or file dictionary at all
+                want, err = cli_count(p, os.path.join(wd, "none.txt"), os.path.join(wd, "nofd"), wd)
+                if want is None:
+                    got = None
+            if got is None:
+                inconclusive.append("harper-cli gave no count (%s): %s" % (shape, err))
+                continue
+            seen.add((shape, name, ext))
+            if got != want:
+                findings.append({"prop": "C07", "sig": "cli.dictionary-file@%s/%s" % (shape, name), "count": 1, "wlen": len(words),
+                                 "witness": {"shape": shape, "user_dictionary": user, "file_dictionary": filea if p == pa else fileb, "text": doc(words), "file": os.path.basename(p)},
+                                 "detail": "harper-cli lint --count --only-lint-with SpellCheck reports %d spelling lints on %r with a %s dictionary file; %d expected (%s)" % (
+                                     got, words, shape, want, "every word is in a dictionary in force for the file" if want == 0 else "none of the words is in a dictionary in force for the file")})
+        if len(samples) < 3 and i < 2:
+            samples.append({"cli": {"shape": shape, "user_dictionary": user, "file_dictionary_a": filea}})
+        shutil.rmtree(wd, ignore_errors=True)
+    return evaluations, seen, inconclusive[:3]
+
 
 def run(tier, seed, scale, verif):
     t0 = time.time()
@@ -417,6 +508,7 @@ def run(tier, seed, scale, verif):
                 samples.append({"history": h.trace[:6]})
     sizes = [0, 3, 700] if tier == "quick" else [0, 1, 3, 40, 400, 700, 1500, 3000, 6000, 12000]
     ce, points = crash_points(base, refbase, sizes, raw, samples)
+    cli_n, cli_seen, cli_inc = cli_dictionaries(base, seed, int((20 if tier == "quick" else 200) * scale), raw, samples)
     model.shutdown_references()
     shutil.rmtree(base, ignore_errors=True)
     findings = {}
@@ -428,7 +520,8 @@ def run(tier, seed, scale, verif):
             findings[k]["count"] = c
         findings[k]["count"] += 1
     notes = ["histories=%d model checks=%d; crash points executed=%d over dictionary sizes %r; reference queries=%d (fresh audits %d, mismatches %d)" % (
-        n, checks, ce, sizes, model._audit["queries"], model._audit["fresh_audits"], model._audit["audit_mismatch"])]
+        n, checks, ce, sizes, model._audit["queries"], model._audit["fresh_audits"], model._audit["audit_mismatch"]),
+        "harper-cli runs on dictionary files of %d (shape, case, file type) combinations: %d" % (len(cli_seen), cli_n)]
     if len(inconclusive) > max(2, n // 5):
         inconclusive.append("too many histories did not complete")
     else:
@@ -436,5 +529,6 @@ def run(tier, seed, scale, verif):
         inconclusive = []
     if model._audit["audit_mismatch"]:
         inconclusive.append("reference server instability")
-    return {"evaluations": checks + ce, "distinct_nontrivial": len(shapes) + len(points), "samples": samples, "findings": list(findings.values()), "notes": notes,
-            "inconclusive": inconclusive[:5], "counters": {"history_checks": checks, "crash_points": ce}, "wall_s": time.time() - t0}
+    inconclusive += cli_inc
+    return {"evaluations": checks + ce + cli_n, "distinct_nontrivial": len(shapes) + len(points) + len(cli_seen), "samples": samples, "findings": list(findings.values()), "notes": notes,
+            "inconclusive": inconclusive[:5], "counters": {"history_checks": checks, "crash_points": ce, "cli_dictionary_runs": cli_n}, "wall_s": time.time() - t0}
